@@ -32,7 +32,7 @@ RULE = ("for routes of h = 1..8 hops over line/tree topologies: every single-fai
         "types, h in {1,2,3,5,8}; thorough: all types 0..255 except those the network layer consumes x all h); seeded "
         "runs beyond with random double faults, cross traffic routed through the sender (a foreign NETWORK_ACK passes it while "
         "its own never arrives - or does), a calibrated family (route_timeout set just above the measured NETWORK_ACK round trip, first hop deaf "
-        "for 10-25 ms), frame objects still carrying another node's address, tx_timeout 5..150 ms, route_timeout 15..450 ms, MCU jitter. Non-trivial: "
+        "for 10-25 ms), frame objects still carrying another node's address, nodes with allow_multicast off / multicast_relay on, tx_timeout 5..150 ms, route_timeout 15..450 ms, MCU jitter. Non-trivial: "
         "route has an intermediate node; distinct = distinct abstract event sequences")
 ASSUMPTIONS = ["single-frame messages (<= 24 bytes): the property's scope", "chip/air model M1-M4, M7, M9",
                "a NETWORK_ACK sitting unread in the RX FIFO at the deadline is a legitimate timeout (margin = 2 poll periods + 5 ms)"]
@@ -159,7 +159,17 @@ def make(i, base_seed, tier):
             a = netref.parent(a)
             closed.add(a)
     slow = rng.random() < 0.3
-    return {"seed": seed, "src": src, "dst": dst, "type": t, "len": rng.choice([0, 1, 8, 24]), "mode": mode,
+    # non-default multicast configuration of individual nodes (seeded runs only): allow_multicast switched off (the node re-translates its
+    # pipe 0 by re-assigning its address, as documented) and multicast_relay switched on - neither changes who owes a NETWORK_ACK
+    xc = stream(seed, "mcfg")
+    mc_off, mc_relay = [], []
+    if i >= len(en):
+        for a in sorted(closed):
+            if xc.random() < 0.3 and not (mode == "multicast" and a == src):
+                mc_off.append(a)
+            elif xc.random() < 0.4:
+                mc_relay.append(a)
+    return {"seed": seed, "mc_off": mc_off, "mc_relay": mc_relay, "src": src, "dst": dst, "type": t, "len": rng.choice([0, 1, 8, 24]), "mode": mode,
             "nodes": [{"addr": a, "knobs": random_mcu_knobs(kr, stalls=False) if slow else {"spi_overhead_us": rng.choice([5, 20, 50]), "spi_jitter_us": 5,
                                                                                          "poll_us": rng.choice([100, 300, 1000]), "rate": 1.0 + rng.uniform(-0.02, 0.02),
                                                                                          "epoch_ns": rng.randrange(10**12)}} for a in sorted(closed)],
@@ -190,6 +200,13 @@ def _run(scn, w, net, res):
         def setup(node, nd=nd):
             node.tx_timeout = scn["tx_timeout"]
             node.route_timeout = scn["route_timeout"]
+            if nd["addr"] in scn.get("mc_off", ()):
+                node.allow_multicast = False
+                node.node_address = nd["addr"]
+                sim.count("node_with_multicast_off")
+            if nd["addr"] in scn.get("mc_relay", ()):
+                node.multicast_relay = True
+                sim.count("node_with_multicast_relay")
             if (scn["seed"] + nd["addr"]) % 4 == 0:
                 # history: the node is (re-)addressed after its timeouts were set (the timeouts are the application's, not the address's)
                 node.node_address = nd["addr"]
